@@ -56,6 +56,20 @@ type dsFields struct {
 	Sig    tm.Segs `json:"sig"`
 }
 
+// fixedField is the text of a JSON field that carries a fixed-size structure: the base64 of B, or (Wf false)
+// a text that is not base64 at all.
+type fixedField struct {
+	Wf bool    `json:"wf"`
+	B  tm.Segs `json:"b"`
+}
+
+func (f fixedField) text() string {
+	if f.Wf {
+		return b64(f.B.Expand())
+	}
+	return b64(f.B.Expand()) + "!"
+}
+
 type conv struct {
 	Ok bool     `json:"ok"`
 	V  tm.Value `json:"v"`
@@ -100,6 +114,19 @@ type wireCase struct {
 		Size    tm.Num  `json:"size"`
 		Root    tm.Segs `json:"root"`
 	} `json:"sth"`
+	Field  *fixedField `json:"field"`
+	ToHash *conv       `json:"tohash"`
+	Objs   []struct {
+		Obj struct {
+			Version uint64     `json:"sth_version"`
+			Size    tm.Num     `json:"tree_size"`
+			TS      tm.Num     `json:"timestamp"`
+			Root    fixedField `json:"sha256_root_hash"`
+			Sig     tm.Segs    `json:"tree_head_signature"`
+			LogID   fixedField `json:"log_id"`
+		} `json:"obj"`
+		ToSTH conv `json:"tosth"`
+	} `json:"objs"`
 	Real bool      `json:"real"`
 	Exts []int     `json:"exts"`
 	SCTs []tm.Segs `json:"scts"`
@@ -703,6 +730,60 @@ func (c *checker) sth(cs *wireCase) {
 	}
 }
 
+// ---------------------------------------------------------------- fixed-size base64 fields (SHA256Hash)
+
+func (c *checker) hash(cs *wireCase) {
+	text := cs.Field.text()
+	raw := cs.Field.B.Expand()
+	in := &input{M: fmt.Sprintf("b64/%d/%v", len(raw), cs.Field.Wf), B: tm.Segs{{K: "lit", B: ints([]byte(text))}}}
+	check := func(op string, parse func(into *ct.SHA256Hash) error) {
+		c.accept(op, in, cs.ToHash.Ok, func([]byte) error {
+			var got ct.SHA256Hash
+			if err := parse(&got); err != nil {
+				return err
+			}
+			// without loss: the value is the bytes of the field, and it converts back to the text that was read
+			if !bytes.Equal(got[:], raw) || got.Base64String() != text {
+				c.violate(op, "lossy", fmt.Sprintf("field %q (%d bytes) became %x, which converts back to %q", text, len(raw), got[:], got.Base64String()), in)
+			}
+			js, err := json.Marshal(got)
+			if err != nil || string(js) != `"`+got.Base64String()+`"` {
+				c.violate("json.Marshal(SHA256Hash)", "wrong-json", fmt.Sprintf("%s (err %v)", js, err), in)
+			}
+			return nil
+		})
+	}
+	check("SHA256Hash.FromBase64String", func(into *ct.SHA256Hash) error { return into.FromBase64String(text) })
+	check("json.Unmarshal(SHA256Hash)", func(into *ct.SHA256Hash) error { return json.Unmarshal([]byte(`"`+text+`"`), into) })
+	// a refused value must not be half-written either (the receiver keeps what it held) - unasserted: the property
+	// speaks of the conversion's result only.
+	for i := range cs.Objs {
+		o := &cs.Objs[i]
+		msg := fmt.Sprintf(`{"sth_version":%d,"tree_size":%d,"timestamp":%d,"sha256_root_hash":%q,"tree_head_signature":%q,"log_id":%q}`,
+			o.Obj.Version, u64(o.Obj.Size), u64(o.Obj.TS), o.Obj.Root.text(), b64(o.Obj.Sig.Expand()), o.Obj.LogID.text())
+		oin := &input{M: "json", B: tm.Segs{{K: "lit", B: ints([]byte(msg))}}}
+		c.accept("json.Unmarshal(SignedTreeHead)", oin, o.ToSTH.Ok, func([]byte) error {
+			var got ct.SignedTreeHead
+			if err := json.Unmarshal([]byte(msg), &got); err != nil {
+				return err
+			}
+			gotTree := strct(num(uint64(got.Version)), num(got.TreeSize), num(got.Timestamp), bts(got.SHA256RootHash[:]),
+				treeDS(tls.DigitallySigned(got.TreeHeadSignature)), bts(got.LogID[:]))
+			if want, _ := o.ToSTH.V.Decode(); o.ToSTH.Ok && !gotTree.Equal(want) {
+				c.violate("json.Unmarshal(SignedTreeHead)", "wrong-value", fmt.Sprintf("%s converts to %s, got %s", short([]byte(msg)), want, gotTree), oin)
+			}
+			back, err := json.Marshal(got)
+			if err != nil {
+				return err
+			}
+			if o.ToSTH.Ok && !sameJSON(back, []byte(msg)) {
+				c.violate("json.Marshal(SignedTreeHead)", "lossy", fmt.Sprintf("%s re-marshals as %s", short([]byte(msg)), short(back)), oin)
+			}
+			return nil
+		})
+	}
+}
+
 // ---------------------------------------------------------------- SCT lists
 
 func (c *checker) sctlist(cs *wireCase) {
@@ -791,6 +872,8 @@ func TestReplay(t *testing.T) {
 			c.sth(cs)
 		case "sctlist":
 			c.sctlist(cs)
+		case "hash":
+			c.hash(cs)
 		default:
 			t.Fatalf("unknown case kind %q", cs.Kind)
 		}
